@@ -392,7 +392,14 @@ std::vector<double> bad_values(const api::Row& r, const std::string& nm) {
     return v;
   }
   if (nm == "k0" || nm == "k1" || nm == "k") return {NaN, INF, -INF, 0.0, -0.0, -1.0, -big};
-  if (nm.rfind("stdlat", 0) == 0) return {NaN, INF, -INF, std::nextafter(90.0, INF), -std::nextafter(90.0, INF), 90.001, -91.0, 1e300, -big};
+  if (nm.rfind("stdlat", 0) == 0) {
+    std::vector<double> v = {NaN, INF, -INF, std::nextafter(90.0, INF), -std::nextafter(90.0, INF), 90.001, -91.0, 1e300, -big};
+    // documented invalid *combinations* of the two-parallel constructors: LambertConformalConic "if either stdlat1 or
+    // stdlat2 is a pole and stdlat1 is not equal stdlat2", AlbersEqualArea "if stdlat1 and stdlat2 are opposite poles"
+    // (check_ctor sets the other parallel accordingly); repaired defect 99a5f50 accepted them with NaN constants
+    if (row.find("stdlat1,stdlat2") != std::string::npos) { v.push_back(90.0); v.push_back(-90.0); }
+    return v;
+  }
   if (nm.rfind("coslat", 0) == 0) return {NaN, -0.1, -1.0, 2.0, INF, -INF};
   if (nm.rfind("sinlat", 0) == 0) return {NaN, 2.0, -2.0, INF, -INF};
   // EllipticFunction::Reset deliberately accepts NaN ("needed for GeodesicExact", EllipticFunction.cpp:223): only the range is demanded
@@ -431,6 +438,14 @@ Verdict check_ctor(const J& rec) {
     std::vector<double> bad = bad_values(*r, r->args[(size_t)i].name);
     if (bad.empty() || bi < 0) { v.skip("no documented invalid values for this parameter"); return v; }
     c.a[i] = bad[(size_t)bi % bad.size()];
+    if (std::fabs(c.a[i]) == 90) {      // pole combination (see bad_values): the other parallel
+      std::string nm = r->args[(size_t)i].name; const char* on = nm == "stdlat1" ? "stdlat2" : "stdlat1";
+      for (size_t j = 0; j < r->args.size(); ++j) if (std::string(r->args[j].name) == on) {
+        if (std::string(r->name).find("Albers") != std::string::npos) c.a[j] = -c.a[i];          // opposite poles
+        else if (std::fabs(c.a[j]) == 90 && c.a[j] == c.a[i]) c.a[j] = 0.5 * c.a[i];             // LCC: any unequal parallel
+      }
+      v.tag("pole-combination");
+    }
     Outcome o = call_isolated(*r, c);
     if (o.st == DIED) { died_verdict(v, o, describe(*r, c), *r, c); return v; }
     v.that(o.st == GEOERR, std::string("invalid parameter accepted or wrong exception (") + (o.st == RET ? "returned" : o.what) + "): " + describe(*r, c));
